@@ -200,6 +200,8 @@ def run_check(prop, tier, repo, jobs, seed, record_baseline=False):
   reg = _registry()
   pmod = importlib.import_module('props.' + prop)
   units = sorted(set(getattr(pmod, 'UNITS', [])) | set(n for n, f in reg.functions.items() if prop in f.props))
+  # an aspect unit assumes what its base unit proves: the base unit is always checked with it
+  units = sorted(set(units) | set(reg.functions[u].base_name for u in units if u in reg.functions and reg.functions[u].base_name))
   trusted_units = [u for u in units if u in reg.functions and reg.functions[u].trusted]
   units = [u for u in units if u not in trusted_units]
   if not units:
@@ -217,6 +219,9 @@ def run_check(prop, tier, repo, jobs, seed, record_baseline=False):
     results = list(pool.map(solve_text, [(ob.pop('smt2'), timeout_ms, recheck) for ob in todo]))
   for ob, r in zip(todo, results):
     ob['status'], ob['backend'], ob['reason'], ob['time'] = r
+  if os.environ.get('PYVC_SLOW'):
+    for ob in sorted(todo, key=lambda o: -o['time'])[:12]:
+      print('SLOW %.1fs %s %s::%s' % (ob['time'], ob['backend'], ob['unit'], ob['name']))
   findings = load_findings()
   open_f = [f for f in findings if f.get('status') == 'open' and f.get('property') == prop]
   all_obs = [ob for g in gens for ob in g['obligations']]
